@@ -25,7 +25,7 @@ structure CancelPost (s s' : State) (c : Req) (k : Nat) : Prop where
   done : ∀ i, i ∈ s'.done ↔ i ∈ s.done ∨ i = c.id
   noLive : ∀ o ∈ s'.objs, o.inMap = true → o.name ≠ k
   evs : ∃ evs, s'.events = s.events ++ evs ∧ ∀ e ∈ evs, ∃ ser, e = Ev.final ser
-  len : s'.objs.length = s.objs.length
+  len : s.objs.length ≤ s'.objs.length
   mono : ∀ o' ∈ s'.objs, o'.inMap = true → o' ∈ s.objs ∧ o'.inMap = true
 
 theorem cancelCommand_spec {s : State} (h : Core s) (hfix : s.cfg.fixCancel = true) {c : Req} {k : Nat}
@@ -130,29 +130,32 @@ theorem cancelCommand_spec {s : State} (h : Core s) (hfix : s.cfg.fixCancel = tr
         exact ⟨hy, hmx⟩
   | none =>
     have hnone := findLive_none hfl
-    simp only [hfix, Bool.true_and]
-    by_cases hd : isDone s c = true
-    · simp only [hd, Bool.not_true]
-      refine ⟨h, rfl, ?_, hnone, ⟨[], by simp, by simp⟩, rfl, fun o ho hm => ⟨ho, hm⟩⟩
-      intro i
-      rw [isDone_iff] at hd
-      constructor
-      · exact Or.inl
-      · rintro (hh | rfl)
-        · exact hh
-        · exact hd
-    · have hd' : isDone s c = false := by simpa using hd
-      simp only [hd', Bool.not_false, if_true]
-      have hsome := markReqCancelled_isSome (markDone s c) c.id (by simpa using hfix) (by simpa using htr)
-      cases hmk : markReqCancelled (markDone s c) c.id with
+    simp only
+    -- `c` holds no initialised instance: making it done keeps the invariant
+    have hdrop : ∀ s2 : State, s2.objs = s.objs → s2.events = s.events → s2.executing = s.executing →
+        s2.cfg = s.cfg → (∀ i, i ∈ s2.done ↔ i ∈ s.done ∨ i = c.id) → Core s2 := by
+      intro s2 hobjs hev hex hcfg hdn
+      apply h.congr_done hobjs hev hex hcfg c hc
+      · intro o ho hm hn
+        rw [hk] at hn
+        injection hn with hn
+        exact absurd hn.symm (hnone o ho hm)
+      · intro i hi; exact (hdn i).mp hi
+    cases hst : staleOwner s.stale k with
+    | some ow =>
+      -- an uninitialised instance of that name: cancelled + finalized (its only callback), released
+      simp only
+      have hsome := markReqCancelled_isSome s c.id hfix htr
+      cases hmk : markReqCancelled s c.id with
       | none => simp [hmk] at hsome
       | some s2 =>
         obtain ⟨hv, hobjs, hev, hdone⟩ := markReqCancelled_frame _ s2 c.id hmk
         obtain ⟨_, hex, _, _, _, _, _, _, _, _, _, _, _, _, _, hcfg, _⟩ := view_eq hv
-        simp only [Option.getD_some]
-        have hdn : ∀ i, i ∈ s2.done ↔ i ∈ s.done ∨ i = c.id := by
+        simp only
+        have hdn : ∀ i, i ∈ (markDone (tomb s2 k ow) c).done ↔ i ∈ s.done ∨ i = c.id := by
           intro i
-          rw [hdone, markDone_done_mem]
+          rw [markDone_done_mem]
+          simp only [tomb, hdone, hex]
           constructor
           · rintro (hh | ⟨e, _⟩)
             · exact Or.inl hh
@@ -160,26 +163,83 @@ theorem cancelCommand_spec {s : State} (h : Core s) (hfix : s.cfg.fixCancel = tr
           · rintro (hh | e)
             · exact Or.inl hh
             · exact Or.inr ⟨e, c, hc, rfl⟩
-        refine ⟨?_, by simp [hv], hdn, ?_, ⟨[], by simp [hev], by simp⟩, by simp [hobjs], ?_⟩
-        · apply h.congr (by simp [hobjs]) (by simp [hev]) (by simpa using hex) (by simpa using hcfg)
-          intro o ho hm
-          obtain ⟨_, _, _, r', hr', h1, h2, h3⟩ := h.live o ho hm
-          rw [hdn]
-          rintro (hh | e)
-          · exact h3 (h1 ▸ hh)
-          · have : r' = c := req_id_inj h.ids hr' hc (by rw [h1, e])
-            subst this
-            rw [hk] at h2
-            injection h2 with h2
-            exact hnone o ho hm h2.symm
+        have hcoreT : Core (tomb s2 k ow) := by
+          apply h.appendDead (c := ⟨k, s.objs.length, ow, 0, false, true, false, true, false⟩)
+          · simp [tomb, hobjs]
+          · rfl
+          · rfl
+          · rfl
+          · rfl
+          · rfl
+          · simp [tomb, hev, hobjs]
+          · simp [tomb, hex]
+          · simp [tomb, hcfg]
+          · simp [tomb, hdone]
+        refine ⟨?_, by rw [view_markDone]; simp only [tomb]; rw [← hv]; rfl, hdn, ?_,
+          ⟨[.final s2.objs.length], by simp [tomb, hev], by intro e he; simp at he; exact ⟨_, he⟩⟩,
+          by simp [tomb, hobjs], ?_⟩
+        · apply hcoreT.congr_done (by simp) (by simp) (by simp) (by simp) c (by simp [tomb, hex, hc])
+          · intro o ho hm hn
+            simp only [tomb, List.mem_append, List.mem_singleton] at ho
+            rcases ho with ho | rfl
+            · rw [hobjs] at ho
+              rw [hk] at hn
+              injection hn with hn
+              exact absurd hn.symm (hnone o ho hm)
+            · simp at hm
+          · intro i hi
+            rcases (hdn i).mp hi with h1 | h1
+            · left; simp [tomb, hdone, h1]
+            · exact Or.inr h1
         · intro o ho hm
-          rw [hobjs] at ho
-          exact hnone o (by simpa using ho) hm
+          simp only [markDone_objs, tomb, List.mem_append, List.mem_singleton] at ho
+          rcases ho with ho | rfl
+          · rw [hobjs] at ho; exact hnone o ho hm
+          · simp at hm
         · intro o ho hm
-          rw [hobjs] at ho
-          exact ⟨by simpa using ho, hm⟩
-
-
+          simp only [markDone_objs, tomb, List.mem_append, List.mem_singleton] at ho
+          rcases ho with ho | rfl
+          · rw [hobjs] at ho; exact ⟨ho, hm⟩
+          · simp at hm
+    | none =>
+      simp only [hfix, Bool.true_and]
+      by_cases hd : isDone s c = true
+      · simp only [hd, Bool.not_true]
+        refine ⟨h, rfl, ?_, hnone, ⟨[], by simp, by simp⟩, Nat.le_refl _, fun o ho hm => ⟨ho, hm⟩⟩
+        intro i
+        rw [isDone_iff] at hd
+        constructor
+        · exact Or.inl
+        · rintro (hh | rfl)
+          · exact hh
+          · exact hd
+      · have hd' : isDone s c = false := by simpa using hd
+        simp only [hd', Bool.not_false, if_true]
+        have hsome := markReqCancelled_isSome (markDone s c) c.id (by simpa using hfix) (by simpa using htr)
+        cases hmk : markReqCancelled (markDone s c) c.id with
+        | none => simp [hmk] at hsome
+        | some s2 =>
+          obtain ⟨hv, hobjs, hev, hdone⟩ := markReqCancelled_frame _ s2 c.id hmk
+          obtain ⟨_, hex, _, _, _, _, _, _, _, _, _, _, _, _, _, hcfg, _⟩ := view_eq hv
+          simp only [Option.getD_some]
+          have hdn : ∀ i, i ∈ s2.done ↔ i ∈ s.done ∨ i = c.id := by
+            intro i
+            rw [hdone, markDone_done_mem]
+            constructor
+            · rintro (hh | ⟨e, _⟩)
+              · exact Or.inl hh
+              · exact Or.inr e
+            · rintro (hh | e)
+              · exact Or.inl hh
+              · exact Or.inr ⟨e, c, hc, rfl⟩
+          refine ⟨hdrop s2 (by simp [hobjs]) (by simp [hev]) (by simpa using hex) (by simpa using hcfg) hdn,
+            by simp [hv], hdn, ?_, ⟨[], by simp [hev], by simp⟩, by simp [hobjs], ?_⟩
+          · intro o ho hm
+            rw [hobjs] at ho
+            exact hnone o (by simpa using ho) hm
+          · intro o ho hm
+            rw [hobjs] at ho
+            exact ⟨by simpa using ho, hm⟩
 
 /-- Records exist for the requests of the manager while tracking is on (a statement about `view`). -/
 def TrackEx (s : State) : Prop :=
@@ -208,7 +268,7 @@ structure PassPost (sel : Req → Bool) (l : List Req) (s s' : State) : Prop whe
   doneOnly : ∀ i, i ∈ s'.done → i ∈ s.done ∨ ∃ c ∈ l, sel c = true ∧ c.id = i
   allDone : ∀ c ∈ l, sel c = true → c.isUod = true → c.id ∈ s'.done
   evs : ∃ evs, s'.events = s.events ++ evs ∧ ∀ e ∈ evs, ∃ ser, e = Ev.final ser
-  len : s'.objs.length = s.objs.length
+  len : s.objs.length ≤ s'.objs.length
   mono : ∀ o' ∈ s'.objs, o'.inMap = true → o' ∈ s.objs ∧ o'.inMap = true
 
 theorem cancelWhere_spec (sel : Req → Bool) (chk : Bool) (l : List Req) :
@@ -217,7 +277,7 @@ theorem cancelWhere_spec (sel : Req → Bool) (chk : Bool) (l : List Req) :
   induction l with
   | nil =>
     intro s h _ _ _
-    exact ⟨h, rfl, fun _ hi => hi, fun _ hi => Or.inl hi, by simp, ⟨[], by simp [cancelWhere], by simp⟩, rfl,
+    exact ⟨h, rfl, fun _ hi => hi, fun _ hi => Or.inl hi, by simp, ⟨[], by simp [cancelWhere], by simp⟩, Nat.le_refl _,
       fun o ho hm => ⟨ho, hm⟩⟩
   | cons c rest ih =>
     intro s h hfix htr hl
@@ -247,7 +307,7 @@ theorem cancelWhere_spec (sel : Req → Bool) (chk : Bool) (l : List Req) :
         obtain ⟨_, hex, _, _, _, _, _, _, _, _, _, _, _, _, _, hcfg, _⟩ := view_eq q.view
         have p := ih q.core (by rw [hcfg]; exact hfix) (htr.of_view q.view)
           (fun x hx => by rw [hex]; exact hrest x hx)
-        refine ⟨p.core, by rw [p.view, q.view], ?_, ?_, ?_, ?_, by rw [p.len, q.len], ?_⟩
+        refine ⟨p.core, by rw [p.view, q.view], ?_, ?_, ?_, ?_, Nat.le_trans q.len p.len, ?_⟩
         · intro i hi
           exact p.doneGrow i ((q.done i).mpr (Or.inl hi))
         · intro i hi
